@@ -277,10 +277,20 @@ def run_c07(ctx, replay=None):
         runs.append(("rt", build_c07(ctx, realtime=True), rt_progs, ["-realtime"]))
     # every run writes its own trace (ids offset by run); one TLC validation over the concatenation
     viol, seen, summaries, cov_sched, confirmed = [], {}, {}, 0, set()
+    gave_up = None
     allp = os.path.join(ctx.scratch, "c07-all-trace.ndjson")
     with open(allp, "w") as out:
         for i, (tag, binary, progs, extra) in enumerate(runs):
-            tp, summ = c07_drive(ctx, binary, progs, tag, extra + ["-idbase", str(i * 1000000)])
+            try:
+                tp, summ = c07_drive(ctx, binary, progs, tag, extra + ["-idbase", str(i * 1000000)])
+            except vlib.Inconclusive as e:
+                # a driver that gives up (e.g. the real-time replay refusing to go on) must not keep the traces of the
+                # other runs from being judged: remember it, no verdict from that run
+                if tag != "rt":
+                    raise
+                gave_up = str(e)
+                ctx.log("run %s gave up: %s" % (tag, gave_up.splitlines()[-1] if gave_up else ""))
+                continue
             summaries[tag] = summ
             cov_sched += summ.get("schedules", 0)
             with open(tp) as f:
@@ -312,6 +322,8 @@ def run_c07(ctx, replay=None):
         else:
             ctx.log("report %s (%s, trace %d) not reproduced; ignored" % (clauses, tag, tid))
     new, known = vlib.classify(ctx.prop, viol)
+    if gave_up and not new:
+        raise vlib.Inconclusive(gave_up)
     kinds = {}
     for p in seq_progs:
         for o in p["pre"]:
